@@ -515,12 +515,12 @@ def scenarios(rng, tier):
         bts = [r.choice([0xA5, 0x53, 0xC3]), 0x00, 0xFF][:m]
         heavy = n > 1000
         out.append(dict(n=n, freq=(2 * n * 100, 100) if n != 217 else (50000000, 115200), bytes=bts, producer=dict(kind='hold', gaps=[0] * m),
-                        consumer=dict(kind='always'), seed=n, full=False, model=not (quick and n != 216)))
+                        consumer=dict(kind='always'), seed=n, full=False, model=not ((quick and n != 216) or n > 2604)))
         out.append(dict(n=n, freq=(2 * n * 100, 100), bytes=bts, producer=dict(kind='hold', gaps=[r.randint(0, P)] * m),
                         consumer=dict(kind='window', k=3 * P, width=2, phase=r.randint(0, 3 * P - 1)), seed=n, full=False,
                         model=not (quick or heavy)))
     # (b) gap patterns x consumer timings that keep up
-    nb = 40 if quick else 400
+    nb = 40 if quick else 300
     for j in range(nb):
         r = rng.fork(('b', j))
         n = r.choice(ns if quick else ns + [2, 3, 2])
